@@ -12,10 +12,6 @@ import Datacake.Props.C02
 namespace Datacake.C06
 open Datacake.Lww Datacake.OrSwot Datacake.Storage Datacake.Keyspace Datacake.Cluster
 
-/-- `handle_consistency_distribution`: `acks` are the per-replica outcomes. -/
-def distribute (acks : List Bool) : Except (Nat × Nat) Unit :=
-  if (acks.filter id).length = acks.length then .ok () else .error ((acks.filter id).length, acks.length)
-
 /-- "Node `n` holds the mutation or a newer record for its id": its store's record of the id is at
 least the mutation's. -/
 def Holds (n : Node) (id rank : Nat) : Prop := AtLeast (storeView n.store id) rank
@@ -94,9 +90,9 @@ theorem ack_del_holds (F : Nat) (n : Node) (src id ts : Nat) (fail : Bool) (h : 
 selected replica acknowledged; otherwise the error carries exactly the number of acknowledgements
 and the number of selected replicas. -/
 theorem distribute_spec (acks : List Bool) :
-    (distribute acks = .ok () ↔ ∀ a ∈ acks, a = true) ∧
-    (∀ r q, distribute acks = .error (r, q) → r = (acks.filter id).length ∧ q = acks.length ∧ r < q) := by
-  unfold distribute
+    (distributeAcks acks = .ok () ↔ ∀ a ∈ acks, a = true) ∧
+    (∀ r q, distributeAcks acks = .error (r, q) → r = (acks.filter id).length ∧ q = acks.length ∧ r < q) := by
+  unfold distributeAcks
   constructor
   · constructor
     · intro h
@@ -135,7 +131,7 @@ theorem ok_means_stored (F : Nat) (issuer : Node) (replicas : List Node) (d : Do
     (hagree : Agree issuer ∧ ∀ n ∈ replicas, Agree n)
     (hfresh : isBefore issuer.set.safe d.2.1 = false ∧ ∀ n ∈ replicas, isBefore n.set.safe d.2.1 = false)
     (hlocal : (onSet F issuer 0 d false).2 = .ok)
-    (hdist : distribute ((replicas.zip fails).map (fun p => decide ((onSet F p.1 0 d p.2).2 = .ok))) = .ok ()) :
+    (hdist : distributeAcks ((replicas.zip fails).map (fun p => decide ((onSet F p.1 0 d p.2).2 = .ok))) = .ok ()) :
     (∃ r, storeView (onSet F issuer 0 d false).1.store d.1 = some r ∧ d.2.1 ≤ r / 2) ∧
     ∀ p ∈ replicas.zip fails, ∃ r, storeView (onSet F p.1 0 d p.2).1.store d.1 = some r ∧ d.2.1 ≤ r / 2 := by
   refine ⟨ack_put_holds F issuer 0 d false hagree.1 hfresh.1 hlocal, ?_⟩
@@ -198,7 +194,63 @@ theorem ack_put_holds_fresh (F : Nat) (n : Node) (A : List Op) (src : Nat) (d : 
       exact ⟨(hvalid o ho).1, (hvalid o ho).2, hnew o ho⟩)) hack
 
 /-- Non-vacuity: two replicas, one fails: the error says 1 of 2. -/
-example : distribute [true, false] = .error (1, 2) ∧ distribute [true, true] = .ok () ∧
-    distribute [] = .ok () := ⟨rfl, rfl, rfl⟩
+example : distributeAcks [true, false] = .error (1, 2) ∧ distributeAcks [true, true] = .ok () ∧
+    distributeAcks [] = .ok () := ⟨rfl, rfl, rfl⟩
+
+/-! ### Replicas that do not answer (D18) -/
+
+/-- **distribute_replies**: whatever the selected replicas do before the deadline — acknowledge,
+answer with an error, or stay silent — the call returns: `Ok` exactly when all of them
+acknowledged, otherwise the consistency error with exactly the number that did. -/
+theorem distribute_replies (rs : List Reply) :
+    (distribute rs = .ok () ↔ ∀ r ∈ rs, r = .ack) ∧
+    (∀ a q, distribute rs = .error (a, q) →
+      a = (rs.filter (fun r => r == .ack)).length ∧ q = rs.length ∧ a < q) := by
+  unfold distribute
+  obtain ⟨h1, h2⟩ := distribute_spec (rs.map (fun r => r == .ack))
+  constructor
+  · rw [h1]
+    constructor
+    · intro h r hr
+      have := h (r == .ack) (List.mem_map.2 ⟨r, hr, rfl⟩)
+      simpa using this
+    · intro h a ha
+      obtain ⟨r, hr, rfl⟩ := List.mem_map.1 ha
+      simp [h r hr]
+  · intro a q h
+    obtain ⟨ha, hq, hlt⟩ := h2 a q h
+    refine ⟨?_, by simpa using hq, hlt⟩
+    rw [ha, List.filter_map, List.length_map]
+    rfl
+
+/-- **silent_is_counted_out**: a replica that stays silent makes the call fail with the count of
+the others' acknowledgements; it does not make it wait. -/
+theorem silent_is_counted_out (rs : List Reply) (h : Reply.silent ∈ rs) :
+    ∃ a, distribute rs = .error (a, rs.length) ∧ a = (rs.filter (fun r => r == .ack)).length ∧ a < rs.length := by
+  cases hd : distribute rs with
+  | ok u =>
+    have := ((distribute_replies rs).1.1 hd) _ h
+    cases this
+  | error e =>
+    obtain ⟨a, q⟩ := e
+    obtain ⟨ha, hq, hlt⟩ := (distribute_replies rs).2 a q hd
+    subst hq
+    exact ⟨a, rfl, ha, hlt⟩
+
+/-- The pinned loop agrees with the current one whenever every replica answers … -/
+theorem legacy_agrees_when_all_answer (rs : List Reply) (h : Reply.silent ∉ rs) :
+    distributeLegacy rs = some (distribute rs) := by
+  unfold distributeLegacy
+  have : rs.contains Reply.silent = false := by
+    cases hc : rs.contains Reply.silent with
+    | false => rfl
+    | true => exact absurd (List.contains_iff_mem.1 hc) h
+  rw [this]; rfl
+
+/-- … and never returns when one does not (D18: the advertised timeout did not exist): one of two
+replicas acknowledged, the other is silent — no consistency error, no `Ok`, nothing. -/
+theorem legacy_blocks :
+    distributeLegacy [.ack, .silent] = none ∧ distribute [.ack, .silent] = .error (1, 2) :=
+  ⟨rfl, rfl⟩
 
 end Datacake.C06
